@@ -93,4 +93,10 @@ CHECKS.update({
   "text": "every API the project declares constant-time is executed with its secret arguments undefined (the maintainers' list in src/ctime_tests.c, extended with optional-argument subsets, 1..5 MuSig signers, 0..3 tweaks, adaptor on/off, custom ECDH hash, aux randomness) on fresh, public-seed- and secret-seed-randomised contexts; the library is compiled as its own translation unit with the shipped flags and -DVALGRIND for {native int128 + asm, int64, int128 struct} (quick) plus {-O3, -Os, no asm, clang} (thorough); any memcheck report inside a call is attributed to that call; a canary proves the tracker is live.",
   "note": "Trusted: memcheck definedness propagation; verdict is per compiled binary. Non-control-flow timing channels are out of reach."},
 })
+CHECKS.update({
+ "C07": {
+  "technique": "runtime monitoring: ASan+UBSan+VERIFY build with exact-size heap buffers, callback / return-domain / live-allocation monitors over random, mutated-valid and parse-chained inputs; libFuzzer in the thorough tier",
+  "text": "every parser and verifier entry point of every module (~75 shim ops) receives random bytes at every length, valid artifacts (made by the reference provers and the library's signers) under 9 mutation operators, and every object a parser accepted is chained into the functions that take its type (e.g. a signature with s = 0 into adaptor_recover: finding F2, fixed); ~29k calls quick; a sanitizer report, VERIFY_CHECK abort, fired callback, return value outside {0,1}, unreleased allocation or watchdog expiry is a violation. thorough adds 16 x 40k libFuzzer executions over the same families and the production (non-VERIFY) and int64 builds.",
+  "note": "Trusted: ASan/UBSan; red-zone tools miss intra-object overflows (those are delegated to the format models of C03/C11/C16)."},
+})
 NOT_APPLICABLE = {}
